@@ -442,13 +442,18 @@ func (w *World) buildCRL(cp *CertPlan, src *CRLSrc, plan *CRLPlan, isDelta bool,
 			s.HasInd, s.IndBad = true, true
 		}
 	} else if src.FrShape != FrAbsent {
-		s.Freshest, _, _ = freshestValue(src.FrShape, src.DeltaURL)
+		var us []string
+		var ok bool
+		s.Freshest, us, ok = freshestValue(src.FrShape, src.DeltaURL)
+		if ok {
+			s.FreshURIs = len(us)
+		}
 	}
 	if plan.NumberAbs {
 		s.Number = -1
 	}
 	for i, e := range plan.Entries {
-		es := CRLEntrySpec{Match: e.Match, Reason: e.Reason, RevTime: revTime(e.RevIdx), InvKind: e.InvKind, CriticalExt: e.Crit}
+		es := CRLEntrySpec{Match: e.Match, Reason: e.Reason, RevTime: revTime(e.RevIdx), InvKind: e.InvKind, CriticalExt: e.Crit, CritFirst: e.CritFirst}
 		if e.Match {
 			es.Serial = cp.Serial
 		} else {
@@ -637,6 +642,7 @@ type RevObs struct {
 	LateEvents []string
 	HarnessErr string
 	TEnd       time.Time
+	T0         time.Time // instant at which the calls were started
 	PanicToken any
 }
 
@@ -673,7 +679,7 @@ func (sc *RevScenario) planExchanges(nt *Net, altSeed uint32) {
 					if !isRoot {
 						x.Serve = w.serveOCSP(cp, s)
 					}
-					if sc.PanicAt == "transport" && sc.PanicWorld == w.ID && sc.PanicRep == rep && sc.PanicCert == cp.Pos && i == 0 {
+					if sc.PanicAt == "transport" && sc.PanicWorld == w.ID && sc.PanicRep == rep && sc.panicsAt(cp.Pos) && i == 0 {
 						x.Fault = Fault{Kind: FPanic}
 					}
 					nt.Plan(ck, x)
@@ -684,7 +690,7 @@ func (sc *RevScenario) planExchanges(nt *Net, altSeed uint32) {
 					if !isRoot {
 						x.Serve = w.serveCRL(cp, s, false)
 					}
-					if sc.PanicAt == "transport" && sc.PanicWorld == w.ID && sc.PanicRep == rep && sc.PanicCert == cp.Pos && i == 0 && len(cp.OCSP) == 0 {
+					if sc.PanicAt == "transport" && sc.PanicWorld == w.ID && sc.PanicRep == rep && sc.panicsAt(cp.Pos) && i == 0 && len(cp.OCSP) == 0 {
 						x.Fault = Fault{Kind: FPanic}
 					}
 					nt.Plan(ck, x)
@@ -702,6 +708,18 @@ func (sc *RevScenario) planExchanges(nt *Net, altSeed uint32) {
 			}
 		}
 	}
+}
+
+func (sc *RevScenario) panicsAt(pos int) bool {
+	if pos == sc.PanicCert {
+		return true
+	}
+	for _, c := range sc.PanicCerts {
+		if c == pos {
+			return true
+		}
+	}
+	return false
 }
 
 // seedCache pre-populates the cache per plan. Runs inside the bubble at Epoch.
@@ -892,7 +910,45 @@ func (sc *RevScenario) setup(obs *RevObs, altSeed uint32, nt *Net, ka *keyAlloca
 	return &revInfra{nt: nt, ocspClient: ocspClient, crlClient: crlClient, rf: rf, cache: cache, validators: validators, pv: pv, ka: ka}
 }
 
+// heal makes every source of one certificate of world 0 honest and returns a
+// function that restores the drawn plan.
+func (sc *RevScenario) heal(pos int) (restore func()) {
+	cp := sc.Worlds[0].Certs[pos]
+	type savedO struct {
+		c OCSPContent
+		f Fault
+	}
+	var so []savedO
+	for _, s := range cp.OCSP {
+		so = append(so, savedO{s.Content, s.Fault})
+		s.Content = OCSPContent{Status: StGood, Signer: SgIssuer, RevAgo: s.Content.RevAgo, ByName: s.Content.ByName}
+		s.Fault = Fault{}
+	}
+	var sc2 []CRLSrc
+	for _, s := range cp.CRL {
+		sc2 = append(sc2, *s)
+		s.Base = CRLPlan{SignerKind: "issuer"}
+		s.BaseFault = Fault{}
+		s.DeltaFault = make([]Fault, len(s.DeltaFault))
+		s.Delta = CRLPlan{SignerKind: "issuer", NumOff: 1}
+		s.StubErr, s.CacheSeed, s.CacheGetEr, s.CacheSetEr = false, 0, false, false
+	}
+	return func() {
+		for i, s := range cp.OCSP {
+			s.Content, s.Fault = so[i].c, so[i].f
+		}
+		for i, s := range cp.CRL {
+			x, xd, xb := s.XBase, s.XDelta, sc2[i]
+			*s = xb
+			s.XBase, s.XDelta = x, xd
+		}
+	}
+}
+
 func (sc *RevScenario) execInBubble(obs *RevObs, altSeed uint32, onlyWorld int, hooks *execHooks) {
+	if hooks != nil && hooks.healCert >= 0 && hooks.healCert < len(sc.Worlds[0].Certs)-1 {
+		defer sc.heal(hooks.healCert)()
+	}
 	inf := sc.setup(obs, altSeed, nil, nil)
 	if inf == nil {
 		return
@@ -911,6 +967,32 @@ func (sc *RevScenario) execInBubble(obs *RevObs, altSeed uint32, onlyWorld int, 
 		time.AfterFunc(sc.CancelAfter+time.Millisecond/2, c)
 	case CancelDeadline:
 		baseCtx, cancel = context.WithTimeout(baseCtx, sc.CancelAfter+time.Millisecond/2)
+	case CancelOnXchg:
+		baseCtx, cancel = context.WithCancel(baseCtx)
+		c := cancel
+		// choose the exchange among those planned (read-only during the run)
+		var cands, crls []*Exchange
+		for _, x := range nt.All() {
+			if x.Serve == nil {
+				continue // root sources are never contacted
+			}
+			cands = append(cands, x)
+			if x.Kind == "crl" {
+				crls = append(crls, x)
+			}
+		}
+		if sc.CancelXPreferCRL && len(crls) > 0 {
+			cands = crls
+		}
+		if len(cands) > 0 {
+			cands[sc.CancelXSel%len(cands)].CancelOnClose = true
+		}
+		nt.OnClose = func(x *Exchange) {
+			if x.CancelOnClose {
+				x.Rec.CancelledHere = true
+				c()
+			}
+		}
 	}
 	defer cancel()
 
@@ -933,6 +1015,7 @@ func (sc *RevScenario) execInBubble(obs *RevObs, altSeed uint32, onlyWorld int, 
 	}
 	obs.Calls = make([]*CallObs, len(jobs))
 	obs.PanicToken = pv
+	obs.T0 = time.Now()
 	done := make(chan struct{}, len(jobs))
 	for i, j := range jobs {
 		w, rep := j.w, j.rep
